@@ -12,16 +12,17 @@
 (***************************************************************************)
 EXTENDS Naturals, FiniteSets, Sequences, Ranges, SyncRange
 
-CONSTANTS N, Batch, WSamp, WPrune, Lim, Extra, MaxBatch
+CONSTANTS N, Batch, WSamp, WPrune, Lim, Extra, MaxBatch,
+          SlowThr     \* slow sync threshold (Syncer.tla)
 
 VARIABLES now, netHead, peers,
           stored, sampled, pruned, meta, bstore,          \* header store and blockstore
-          sphase, subj, fetching,                          \* syncer
+          sphase, subj, fetching, slowH,                   \* syncer
           dphase, queue, ongoing, timedOut, promised, headH,   \* daser
           batch,                                           \* pruner: heights decided for removal
           obs
 
-vars == <<now, netHead, peers, stored, sampled, pruned, meta, bstore, sphase, subj, fetching,
+vars == <<now, netHead, peers, stored, sampled, pruned, meta, bstore, sphase, subj, fetching, slowH,
           dphase, queue, ongoing, timedOut, promised, headH, batch, obs>>
 
 InWin(h, W) == now - h < W
@@ -33,7 +34,7 @@ NoObs == [kind |-> "none"]
 
 Init == /\ now = 1 /\ netHead = 1 /\ peers = 0
         /\ stored = {} /\ sampled = {} /\ pruned = {} /\ meta = <<>> /\ bstore = {}
-        /\ sphase = "connecting" /\ subj = 0 /\ fetching = <<>>
+        /\ sphase = "connecting" /\ subj = 0 /\ fetching = <<>> /\ slowH = 0
         /\ dphase = "connecting" /\ queue = {} /\ ongoing = {} /\ timedOut = {} /\ promised = {} /\ headH = 0
         /\ batch = <<>> /\ obs = NoObs
 
@@ -41,7 +42,7 @@ InsertRange(lo, hi) ==
     /\ stored' = stored \cup (lo..hi) /\ pruned' = pruned \ (lo..hi) /\ sampled' = sampled \ (lo..hi)
 
 UNCH_STORE  == UNCHANGED <<stored, sampled, pruned, meta, bstore>>
-UNCH_SYNCER == UNCHANGED <<sphase, subj, fetching>>
+UNCH_SYNCER == UNCHANGED <<sphase, subj, fetching, slowH>>
 UNCH_DASER  == UNCHANGED <<dphase, queue, ongoing, timedOut, promised, headH>>
 UNCH_ENV    == UNCHANGED <<now, netHead, peers>>
 
@@ -52,7 +53,7 @@ Connect == /\ peers = 0 /\ peers' = 1 /\ obs' = NoObs
            /\ UNCHANGED <<now, netHead, batch>> /\ UNCH_STORE /\ UNCH_SYNCER /\ UNCH_DASER
 \* both workers notice in their own time; modelled as one step
 Disconnect == /\ peers = 1 /\ peers' = 0 /\ obs' = NoObs
-              /\ sphase' = "connecting" /\ fetching' = <<>> /\ UNCHANGED subj
+              /\ sphase' = "connecting" /\ fetching' = <<>> /\ UNCHANGED <<subj, slowH>>
               /\ dphase' = "connecting" /\ queue' = {} /\ ongoing' = {} /\ timedOut' = {} /\ headH' = 0
               /\ UNCHANGED <<promised, now, netHead, batch>> /\ UNCH_STORE
 
@@ -65,32 +66,37 @@ TryInit ==
           /\ IF skip THEN UNCHANGED <<stored, pruned, sampled>> ELSE InsertRange(h, h)
           /\ subj' = IF h > subj THEN h ELSE subj
     /\ sphase' = "connected" /\ obs' = NoObs
-    /\ UNCHANGED <<fetching, meta, bstore, batch>> /\ UNCH_ENV /\ UNCH_DASER
+    /\ UNCHANGED <<fetching, slowH, meta, bstore, batch>> /\ UNCH_ENV /\ UNCH_DASER
 HeaderSub ==
     /\ sphase = "connected" /\ netHead > subj /\ subj' = netHead
     /\ IF stored # {} /\ StoreHead + 1 = netHead
        THEN InsertRange(netHead, netHead) ELSE UNCHANGED <<stored, pruned, sampled>>
-    /\ obs' = NoObs /\ UNCHANGED <<sphase, fetching, meta, bstore, batch>> /\ UNCH_ENV /\ UNCH_DASER
+    /\ obs' = NoObs /\ UNCHANGED <<sphase, fetching, slowH, meta, bstore, batch>> /\ UNCH_ENV /\ UNCH_DASER
+\* slow sync (Syncer.tla): below the pruning window the syncer stays at most SlowThr unsampled headers ahead
+SlowSyncHolds(b) == slowH # 0 /\ MaxOf(b) <= slowH /\ Cardinality(stored \ sampled) > SlowThr
 FetchNext ==
     /\ sphase = "connected" /\ fetching = <<>> /\ peers = 1 /\ subj # 0
     /\ LET b == CalcRange(subj, Synced, Batch) IN
        /\ b # {}
+       /\ ~SlowSyncHolds(b)
        /\ LET e == MaxOf(b) + 1 IN
             \/ e \in stored /\ InWin(e, WSamp)
             \/ e \notin stored /\ e \notin pruned
        /\ fetching' = <<MinOf(b), MaxOf(b)>>
        /\ obs' = [kind |-> "fetch", lo |-> MinOf(b), hi |-> MaxOf(b),
                   old |-> {h \in Synced : h > MaxOf(b) /\ ~InWin(h, WSamp)}]
-    /\ UNCHANGED <<sphase, subj, batch>> /\ UNCH_STORE /\ UNCH_ENV /\ UNCH_DASER
+    /\ UNCHANGED <<sphase, subj, slowH, batch>> /\ UNCH_STORE /\ UNCH_ENV /\ UNCH_DASER
 BatchOk ==
     /\ sphase = "connected" /\ fetching # <<>>
     /\ IF Admit(stored, fetching[1], fetching[2]) THEN InsertRange(fetching[1], fetching[2])
        ELSE UNCHANGED <<stored, pruned, sampled>>
     /\ fetching' = <<>> /\ obs' = NoObs
+    /\ slowH' = LET O == {h \in fetching[1]..fetching[2] : ~InWin(h, WPrune)} IN
+                 IF O # {} /\ MaxOf(O) > slowH THEN MaxOf(O) ELSE slowH
     /\ UNCHANGED <<sphase, subj, meta, bstore, batch>> /\ UNCH_ENV /\ UNCH_DASER
 BatchFail ==
     /\ sphase = "connected" /\ fetching # <<>> /\ fetching' = <<>> /\ obs' = NoObs
-    /\ UNCHANGED <<sphase, subj, batch>> /\ UNCH_STORE /\ UNCH_ENV /\ UNCH_DASER
+    /\ UNCHANGED <<sphase, subj, slowH, batch>> /\ UNCH_STORE /\ UNCH_ENV /\ UNCH_DASER
 
 (* ---- daser (Daser.tla); a block's shares are answered as a whole here ---- *)
 QueueNow == (((stored \ sampled) \ timedOut) \ ongoing) \ promised
@@ -202,5 +208,8 @@ WindowSynced == \A h \in 1..netHead : InWin(h, WSamp) => h \in Synced
 WindowSampled == \A h \in stored : InWin(h, WSamp) => h \in sampled
 EventuallySyncedAndSampled == <>[](netHead = N => (WindowSynced /\ WindowSampled))
 \* the pruner eventually removes everything outside both windows
+\* vacuity guard for the configurations: slow sync does hold the syncer back in some reachable state (must be violated)
+SlowSyncNeverHolds == LET b == CalcRange(subj, Synced, Batch) IN
+    ~(sphase = "connected" /\ fetching = <<>> /\ subj # 0 /\ b # {} /\ SlowSyncHolds(b))
 EventuallyPruned == <>[](netHead = N => \A h \in stored : InWin(h, WPrune) \/ InWin(h, WSamp))
 =============================================================================
